@@ -92,3 +92,18 @@ Example ex_cleared : exists s,
   run step (init false [KServe; KSetDeadline DPast; KSetDeadline DZero; KPeer [PClose]]) ([1; 1; 2; 2; 3; 3] ++ repeat 0 15) = Some s /\
   returned s 0 ENil /\ i_done (s_i s) = true /\ i_err (s_i s) = ECtxCanceled.
 Proof. vm_compute. eexists. repeat split; reflexivity. Qed.
+
+(* the connection refuses the closing tag: the bit is set all the same, there
+   is one attempt and no more, Close reports the connection's error once, later
+   calls find the stream closed *)
+Example ex_refused : exists s,
+  run step (init true [KFault; KClose; KClose; KSend 3]) ([0; 0] ++ repeat 1 7 ++ repeat 2 7 ++ repeat 3 6) = Some s /\
+  o_cl (s_o s) = true /\ o_att (s_o s) = 1 /\ o_wire (s_o s) = [] /\ o_pend (s_o s) = false /\
+  map (fun i => a_res (s_a s i)) [1; 2; 3] = [Some EWrite; Some ENil; Some EOutClosed].
+Proof. vm_compute. eexists. repeat split; reflexivity. Qed.
+
+(* ... and Serve, whose shutdown had to write the refused tag, returns that error *)
+Example ex_refused_serve : exists s,
+  run step (init false [KServe; KFault; KPeer [PClose]]) ([1; 1; 2; 2] ++ repeat 0 15) = Some s /\
+  returned s 0 EWrite /\ a_cause (s_a s 0) = CPeerClose /\ o_att (s_o s) = 1 /\ o_cl (s_o s) = true /\ i_cl (s_i s) = true.
+Proof. vm_compute. eexists. repeat split; reflexivity. Qed.
